@@ -110,6 +110,7 @@ def run_obligation(o: Obligation, seed=0):
     stats = harness.Stats()
     funcs = set()
     fails = {}
+    npaths_failing = {}
     unknowns = []
     samples = []  # (assignment, record) for validation
     npaths = [0]
@@ -147,6 +148,7 @@ def run_obligation(o: Obligation, seed=0):
         for f in E.fails:
             key = (f.kind, f.label, f.site)
             d = fails.setdefault(key, {})
+            npaths_failing[key] = npaths_failing.get(key, 0) + 1
             c = f.cls()
             if c not in d:
                 if len(d) < MAX_CLASSES:
@@ -216,7 +218,7 @@ def run_obligation(o: Obligation, seed=0):
                 first = (f, rep is not None, rep)
         f, anyrep, rep = first
         j = f.to_json()
-        j["paths"] = sum(v[1] for v in classes.values())
+        j["paths"] = max(npaths_failing.get(key, 0), sum(v[1] for v in classes.values()))
         j["reproduced"] = all(v["reproduced"] for v in cls_res.values())
         j["classes"] = cls_res
         if rep is not None:
@@ -343,6 +345,8 @@ def match_known(known, prop, oid, fail, cls, nclasses=0):
         if k.get("detail_regex") and not re.search(k["detail_regex"], fail.get("detail", "")):
             continue
         if k.get("max_classes") is not None and nclasses > k["max_classes"]:
+            continue
+        if k.get("max_paths") is not None and fail.get("paths", 0) > k["max_paths"]:
             continue
         return k
     return None
@@ -490,7 +494,7 @@ def main(argv=None):
                 if cls:
                     any_cr = next(cr for cr in f["classes"].values() if cr["reproduced"])
                     out.append(dict(property=prop, obligation=r["id"], kind=any_cr["kind"], label=f["label"], site=any_cr["site"],
-                                    classes=cls, detail=any_cr["detail"][:200], example=any_cr["assignment"]))
+                                    classes=cls, paths=f["paths"], detail=any_cr["detail"][:200], example=any_cr["assignment"]))
         with open(a.dump, "w") as fh:
             json.dump(out, fh, indent=1)
     return report(prop, a.tier, seed, results, time.time() - t0, write=not a.no_evidence and a.only is None)
